@@ -409,4 +409,24 @@ def eraseAll (p : Params K) (k : K) : Nat → Tree K V → Nat → Ledger → Op
         else eraseAll p k fuel r.tree (c + 1) (lg.add r.ledger)
       else some (r.tree, c, lg)
 
+
+/-! ### the hand-written node conditions against the extracted ones (Gen/C01Consts.lean)
+
+The model writes `is_full` / `is_few` / `is_underflow` of leaves and inner nodes inline
+(`es.length = p.leafMax` in `leafInsert`, `keys.length = p.innerMax` in `innerAbsorb`,
+`u ≤ minUse` in `decideFix`, `… < p.leafMin` / `… < p.innerMin` in `eraseInLeaf` / `finishInner` and in
+`verifyNode`), and the bits of `result_flags_t` as independent fields of `EraseOut`
+(`btree_not_found`: the `none` answer; `btree_update_lastkey`: `lastKey`; `btree_fixmerge`: `fix`).
+These `rfl`/`decide` facts stop the build when the extraction no longer agrees. -/
+
+theorem gen_isFull (s m : Nat) : Gen.leafIsFull s m = decide (s = m) ∧ Gen.innerIsFull s m = decide (s = m) := ⟨rfl, rfl⟩
+theorem gen_isFew (s m : Nat) : Gen.leafIsFew s m = decide (s ≤ m) ∧ Gen.innerIsFew s m = decide (s ≤ m) := ⟨rfl, rfl⟩
+theorem gen_isUnderflow (s m : Nat) :
+    Gen.leafIsUnderflow s m = decide (s < m) ∧ Gen.innerIsUnderflow s m = decide (s < m) := ⟨rfl, rfl⟩
+theorem gen_slotmin (m : Nat) : Gen.leafSlotmin m = m / 2 ∧ Gen.innerSlotmin m = m / 2 := ⟨rfl, rfl⟩
+/-- `btree_ok` is the empty set of flags, the other three are distinct single bits -/
+theorem gen_result_flags :
+    Gen.btree_ok = 0 ∧ Gen.btree_not_found = 2 ^ 0 ∧ Gen.btree_update_lastkey = 2 ^ 1 ∧ Gen.btree_fixmerge = 2 ^ 2 := by
+  decide
+
 end TlxVerif.C01
